@@ -40,11 +40,13 @@ def fresh_tables(M, patch=None):
 
 
 def run_output(M, lists, json=False, batch=False, verbose=False, level='info', client=False, sw='OpenSSH_8.0', host_keys=None, dh=None,
-               patch=None, pkm=None, header=(), notes='', print_target=False, host='host', port=22, protocol=(2, 0), comments=None, c2s=None, out_factory=None, valid_ascii=True):
+               patch=None, pkm=None, header=(), notes='', print_target=False, host='host', port=22, protocol=(2, 0), comments=None, c2s=None, out_factory=None, valid_ascii=True, extra=None):
     """real output(); returns dict(ret, lines, doc)"""
     fresh_tables(M, patch)
     aconf = M.auditconf.AuditConf(host, port)
     aconf.json = json
+    for k_, v_ in (extra or {}).items():
+        setattr(aconf, k_, v_)
     out = (out_factory or M.outputbuffer.OutputBuffer)()
     out.use_colors = False
     out.batch, out.verbose, out.level = batch, verbose, level
